@@ -124,6 +124,57 @@ def call(px, st, name, t, args, fid, fn):
         if a[0] == 'ref':
             return [(st, ('optref', a[1]))]
         return [(st, ('optref', px.canon(st, ('P', a))))]
+    if n.endswith('result::Result::<T, E>::map'):
+        outs = []
+        for tag, s2 in px.decide_tag(st, args[0]):
+            if tag == 'neg':
+                outs.append((s2, ('adt', 'core::std::result::Result', 'Err', (px.neg_payload(s2, args[0]),))))
+            else:
+                for s3, rv in px.call_closure(s2, args[1], [px.pos_payload(s2, args[0])]):
+                    outs.append((s3, rv if rv == ('PANIC',) else ('adt', 'core::std::result::Result', 'Ok', (rv,))))
+        return outs
+    if n.endswith('bool::<impl bool>::then_some') or n.endswith('bool::<impl bool>::then'):
+        outs = []
+        for b, s2 in px.decide_bool(st, args[0]):
+            if not b:
+                outs.append((s2, ('adt', 'core::std::option::Option', 'None', ())))
+            elif n.endswith('then_some'):
+                outs.append((s2, ('adt', 'core::std::option::Option', 'Some', (args[1],))))
+            else:
+                for s3, rv in px.call_closure(s2, args[1], []):
+                    outs.append((s3, rv if rv == ('PANIC',) else ('adt', 'core::std::option::Option', 'Some', (rv,))))
+        return outs
+    if n.endswith('option::Option::<T>::filter'):
+        outs = []
+        for tag, s2 in px.decide_tag(st, args[0]):
+            if tag == 'neg':
+                outs.append((s2, ('adt', 'core::std::option::Option', 'None', ())))
+                continue
+            pay = px.pos_payload(s2, args[0])
+            for s3, rv in px.call_closure(s2, args[1], [('cref', pay)]):
+                if rv == ('PANIC',):
+                    outs.append((s3, rv))
+                    continue
+                for b, s4 in px.decide_bool(s3, rv):
+                    outs.append((s4, ('adt', 'core::std::option::Option', 'Some', (pay,)) if b else ('adt', 'core::std::option::Option', 'None', ())))
+        return outs
+    if n.endswith('option::Option::<T>::is_some_and') or n.endswith('result::Result::<T, E>::is_ok_and'):
+        outs = []
+        for tag, s2 in px.decide_tag(st, args[0]):
+            if tag == 'neg':
+                outs.append((s2, FALSE))
+            else:
+                outs.extend(px.call_closure(s2, args[1], [px.pos_payload(s2, args[0])]))
+        return outs
+    if n.endswith('option::Option::<T>::ok_or_else'):
+        outs = []
+        for tag, s2 in px.decide_tag(st, args[0]):
+            if tag == 'pos':
+                outs.append((s2, ('adt', 'core::std::result::Result', 'Ok', (px.pos_payload(s2, args[0]),))))
+            else:
+                for s3, rv in px.call_closure(s2, args[1], []):
+                    outs.append((s3, rv if rv == ('PANIC',) else ('adt', 'core::std::result::Result', 'Err', (rv,))))
+        return outs
     if n.endswith('option::Option::<T>::map'):
         outs = []
         for tag, s2 in px.decide_tag(st, args[0]):
@@ -323,16 +374,18 @@ def call(px, st, name, t, args, fid, fn):
         if tv[0] == 'tiny':
             return [(st, ('tiny', tv[1], tv[2] + (kind,)))]
         return [(st, ('xform', kind, tv))]
-    if re.search(r'TinyAsciiStr<N> as std::cmp::PartialEq(<&str>)?>::eq$', n):
+    m = re.search(r'TinyAsciiStr<N> as std::cmp::PartialEq(<&str>|<str>)?>::(eq|ne)$', n)
+    if m:
         a = px.deref_value(st, args[0])
         b = px.deref_value(st, args[1])
+        neg = (lambda x: ('un', 'Not', x)) if m.group(2) == 'ne' else (lambda x: x)
         lit = literal_of(px, st, b)
         if a[0] == 'tiny' and lit is not None:
-            return [(st, ('pred', 'eqlit', a[1], a[2], lit))]
+            return [(st, neg(('pred', 'eqlit', a[1], a[2], lit)))]
         lit = literal_of(px, st, a)
         if b[0] == 'tiny' and lit is not None:
-            return [(st, ('pred', 'eqlit', b[1], b[2], lit))]
-        return [(st, eqterm(a, b))]
+            return [(st, neg(('pred', 'eqlit', b[1], b[2], lit)))]
+        return [(st, neg(eqterm(a, b)))]
 
     # ---- u8
     m = re.search(r'num::<impl u8>::is_ascii_(alphabetic|alphanumeric|digit|uppercase|lowercase|punctuation|whitespace|hexdigit|graphic|control)$', n)
@@ -376,14 +429,19 @@ def call(px, st, name, t, args, fid, fn):
         a = px.deref_value(st, px.deref_value(st, args[0]))
         b = px.deref_value(st, px.deref_value(st, args[1]))
         return [(st, eqterm(a, b))]
-    if n.endswith('::eq') and ('PartialEq' in n or 'partial_eq' in n):
+    if (n.endswith('::eq') or n.endswith('::ne')) and ('PartialEq' in n or 'partial_eq' in n):
         a = px.deref_value(st, args[0])
         b = px.deref_value(st, args[1])
-        return [(st, eqterm(a, b))]
-    if n.endswith('::ne') and 'PartialEq' in n:
-        a = px.deref_value(st, args[0])
-        b = px.deref_value(st, args[1])
-        return [(st, ('un', 'Not', eqterm(a, b)))]
+        neg = (lambda x: ('un', 'Not', x)) if n.endswith('::ne') else (lambda x: x)
+        # a validated string compared with a literal (through any PartialEq impl / default method): exact shape refinement
+        for x, y in ((a, b), (b, a)):
+            xx = x
+            while xx[0] in ('ref', 'cref') and isinstance(xx[1], tuple) and xx[1] and isinstance(xx[1][0], str) and xx[0] == 'cref':
+                xx = xx[1]
+            lit = literal_of(px, st, y)
+            if xx[0] == 'tiny' and lit is not None:
+                return [(st, neg(('pred', 'eqlit', xx[1], xx[2], lit)))]
+        return [(st, neg(eqterm(a, b)))]
 
     # ---- Vec operations with an index precondition (panics-unless)
     m = re.search(r'vec::Vec::<T, A>::(insert|remove|swap_remove)$', n)
@@ -469,7 +527,7 @@ def totality(name):
     if PURE_RE.search(n) or MUTATOR_RE.search(n) or FMT_RE.search(n):
         return 'total'
     if re.search(r'(as std::ops::Try>::branch$|::from_residual$|::map_err$|::ok$|::map$|::or_else$|::or$|::map_or$|::map_or_else$|::unwrap_or$|::unwrap_or_default$|'
-                 r'::unwrap_or_else$|::transpose$|::and_then$|::ok_or$|::ok_or_else$|::filter$|::copied$|::cloned$|::peek$|::next$|::any$|::all$|::collect$|'
+                 r'::unwrap_or_else$|::transpose$|::and_then$|::ok_or$|::ok_or_else$|::filter$|::then_some$|::then$|::is_some_and$|::is_ok_and$|::try_for_each$|::try_fold$|::replace$|::take$|::flatten$|::find$|::find_map$|::position$|::zip$|::copied$|::cloned$|::peek$|::next$|::any$|::all$|::collect$|'
                  r'RangeInclusive::<Idx>::(contains|new)$|Range::<Idx>::contains$|::serialize_str$|::deserialize_str$|::deserialize_string$|::deserialize_any$|'
                  r'::custom$|::into_boxed_slice$|::iter$|::get$|::first$|::last$|::fold$|::for_each$|::next_back$|::size_hint$|::drop$|::write_char$)', n):
         return 'total'
@@ -548,8 +606,16 @@ def convert_err(px, st, ev, t, fid):
     return [(st, ('errfrom', ev))]
 
 
+U8_PREDS = {'is_ascii_alphabetic': 'ALPHA', 'is_ascii_alphanumeric': 'ALNUM', 'is_ascii_digit': 'DIGIT', 'is_ascii_uppercase': 'UPPER', 'is_ascii_lowercase': 'LOWER', 'is_ascii': 'ASCII'}
+
+
 def byte_closure(px, st, clos):
     """BYTE engine: the exact set of bytes for which a `|c: &u8| -> bool` closure returns true (None = not understood)."""
+    if clos[0] == 'fn':
+        m = re.search(r'num::<impl u8>::(is_ascii\w*)$', clos[1])
+        if m and m.group(1) in U8_PREDS:
+            return getattr(sh, U8_PREDS[m.group(1)])
+        return None
     if clos[0] != 'closure' or clos[1] not in px.p.bodies:
         return None
     cache = px.__dict__.setdefault('_byte_cache', {})
@@ -661,7 +727,21 @@ CMP = {'Eq': lambda x, n: x == n, 'Ne': lambda x, n: x != n, 'Lt': lambda x, n: 
 FLIP = {'Lt': 'Gt', 'Le': 'Ge', 'Gt': 'Lt', 'Ge': 'Le', 'Eq': 'Eq', 'Ne': 'Ne'}
 
 
+def norm_len(v):
+    """len(v[lo..]) == n  <=>  len(v) == n + lo: rewrite comparisons on the length of a subslice to the base subject"""
+    if v[0] == 'bin' and v[1] in CMP:
+        a, b = v[2], v[3]
+        for x, y, flip in ((a, b, False), (b, a, True)):
+            if x[0] == 'len' and isinstance(x[1], tuple) and x[1] and x[1][0] == 'S' and y[0] == 'int':
+                off = x[1][2] + (x[1][3] if x[1][4] else 0)
+                nx = ('len', x[1][1])
+                ny = INT(y[1] + off)
+                return ('bin', v[1], ny, nx) if flip else ('bin', v[1], nx, ny)
+    return v
+
+
 def decide_bool(px, st, v):
+    v = norm_len(v)
     k = v[0]
     if k == 'pred':
         kind = v[1]
